@@ -287,7 +287,7 @@ def build_recording(tier):
             f.write(open(prec).read())
     # C13: repeated and re-scheduled runs on the accepted multi-controller cases
     multi = os.path.join(sc, "multi.cases")
-    ids, twins, spreads, dups = [], [], [], []
+    ids, twins, spreads, dups, reps = [], [], [], [], []
     for line in open(rec):
         r_ = json.loads(line)
         m = r_["runs"].get("main")
@@ -303,7 +303,9 @@ def build_recording(tier):
         def rep_alt(x_):
             alts = [json.dumps([s_.get("scheme"), s_.get("scopes") or []]) for s_ in x_.get("sec") or []]
             return len(set(alts)) < len(alts)
-        if any(len(set(s_.get("scopes") or [])) < len(s_.get("scopes") or []) for s_ in secs) or any(rep_alt(x_) for x_ in r_["case"]["ctrls"] + r_["case"]["methods"]):
+        if any(rep_alt(x_) for x_ in r_["case"]["ctrls"] + r_["case"]["methods"]):
+            reps.append(r_["id"])       # one alternative written twice among others: whatever collapses them through a map loses the written order
+        elif any(len(set(s_.get("scopes") or [])) < len(s_.get("scopes") or []) for s_ in secs):
             dups.append(r_["id"])       # a scope listed twice in one @Security: whatever de-duplicates through a set loses the written order
         elif len(set(names)) < len(names) and imported:
             twins.append(r_["id"])      # controllers sharing a struct name across packages, with imported types: ordering by name alone is ambiguous
@@ -315,10 +317,11 @@ def build_recording(tier):
     rng.shuffle(twins)
     rng.shuffle(spreads)
     rng.shuffle(dups)
+    rng.shuffle(reps)
     n13 = 120 if thorough else 12
     twins = twins[:n13 // 3]
     spreads = spreads[:n13 // 3]
-    dups = dups[:max(2, n13 // 6)]
+    dups = dups[:max(2, n13 // 6)] + reps[:max(3, n13 // 6)]
     ids = set(twins + spreads + dups + ids[:n13 - len(twins) - len(spreads)])
     with open(multi, "w") as f:
         for line in open(cases):
